@@ -4,6 +4,24 @@ import json, os, sys
 HERE = os.path.dirname(os.path.dirname(os.path.abspath(__file__)))
 
 CHECKS = {
+ "C07": dict(
+   technique="exhaustive operand-spelling table, differential execution over generated bank values + static descriptor check",
+   text="Every operand spelling QEMU's conventions produce (register class x letter x pair x V/N, explicit registers and aliases with/without "
+        "_NEW, 8 immediate letters, 16 load/store forms, jump targets of every width, the PC alias) is compiled in read / write / "
+        "read-after-write contexts; the emitted operand descriptors (letter, number, class, alias, .new flag) are checked against an "
+        "architectural table and the program is executed by both models over states whose banks differ for .new spellings.",
+   note="Trusted: the architectural table in vlib/cref/ast.py (documented operand types), bank model of DESIGN.md 4. Spellings the compiler "
+        "rejects are counted, not judged; HVX spellings are checked statically only.",
+   design="7/C07"),
+ "C08": dict(
+   technique="Hypothesis-generated sub-routines and callers (registered via the public API), differential execution; two compilation histories",
+   text="Generated sub-routines (integer parameter/return types, locals, branches, loops, nested calls, tail returns in every arm) are "
+        "registered with add_sub_routine between other compilations; generated callers with 1..4 calls per statement are executed with the "
+        "callee bodies (il_init(DEF) text, flat local namespace) by the RzIL interpreter and compared with real C call semantics, on a "
+        "long-lived and on fresh compiler instances. The bundled routines are exercised by C01's callers.",
+   note="Trusted: vlib/cref call semantics, vlib/il call-by-name binding of argument terms. Listed finding classes (non-tail return, "
+        "temporary/local name collisions, narrower signed return) are excluded by construction and replayed as witnesses.",
+   design="7/C08"),
  "C03": dict(
    technique="exhaustive conversion table (context x source x target type) + Hypothesis conversion chains, differential against a C11 reference",
    text="All 8x8 type pairs plus boolean sources in eleven conversion contexts (explicit cast, initialiser, assignment, chained assignment, "
